@@ -5,6 +5,7 @@
   (MellonProofs/C04.lean); rank selection is in MellonModel/RankSelect (property C10).
 -/
 import MellonModel.Conditional
+import MellonModel.Params
 namespace Mellon
 
 variable {α : Type} [Add α] [Sub α] [Mul α] [Div α] [Neg α] [OfNat α 0] [OfNat α 1]
@@ -44,10 +45,7 @@ def modifiedInner {m : Nat} (R v : Mat α m m) (s : Vector α m) : Mat α m m :=
   let T : Mat α m m := matMul R v
   Mat.ofFn fun i k => nsum m fun t => T.el i t / s.nth t * T.el k t
 
-/-- GP types (`util.GaussianProcessType`). -/
-inductive GPType where
-  | full | fullNystroem | sparseCholesky | sparseNystroem | fixed
-  deriving Repr, DecidableEq, Inhabited
+-- GP types (`util.GaussianProcessType`): `GPType` is defined in MellonModel/Params.lean.
 
 /-- Which routine `compute_L` runs, and the shape of its result (`rows × cols`), given the number of
     cells `n`, of landmarks `m` and the retained rank `p` of the eigen-truncation. -/
